@@ -32,6 +32,16 @@ func (x *Exec) stmt(s ast.Stmt, st *State, cx *Ctx, k func(*State)) {
 	if len(x.errs) > 20 || x.paths > maxPaths {
 		return
 	}
+	if call, fi := x.findInlinable(s, st); call != nil {
+		x.inline(call, fi, st, func(st2 *State, res []Val) {
+			if st2.inlined == nil {
+				st2.inlined = map[*ast.CallExpr][]Val{}
+			}
+			st2.inlined[call] = res
+			x.stmt(s, st2, cx, k)
+		})
+		return
+	}
 	switch s := s.(type) {
 	case *ast.EmptyStmt:
 		k(st)
@@ -278,10 +288,170 @@ func (x *Exec) spawn(st *State, s *ast.GoStmt) {
 		}
 		n++
 		for _, p := range env.evalClause(c) {
-			x.oblige(st, "requires", fmt.Sprintf("go[%d:%s]:requires:%s", x.ordinal(s), lastName(key), p.label(n)), c.Tags, p.term)
+			x.oblige(st, "requires", fmt.Sprintf("go[%d:%s]:requires:%s", x.ordinal(s), lastName(key), p.label(n)), p.tagsFor(c.Tags), p.term)
 		}
 	}
 	st.note("go " + lastName(key))
+}
+
+// ------------------------------------------------------------------ inlining
+//
+// A call to a function of the package under verification that has no contract is executed
+// inline (its body is symbolically executed at the call site), so that small helpers and
+// extracted functions need no contract of their own.
+
+func (x *Exec) staticCallee(e *ast.CallExpr) *types.Func {
+	var obj types.Object
+	fun := ast.Unparen(e.Fun)
+	if ix, ok := fun.(*ast.IndexExpr); ok {
+		fun = ix.X
+	}
+	switch f := fun.(type) {
+	case *ast.Ident:
+		obj = x.info().Uses[f]
+	case *ast.SelectorExpr:
+		obj = x.info().Uses[f.Sel]
+	}
+	fn, _ := obj.(*types.Func)
+	return fn
+}
+
+func (x *Exec) findInlinable(s ast.Stmt, st *State) (*ast.CallExpr, *FuncInfo) {
+	var found *ast.CallExpr
+	var ffi *FuncInfo
+	// only the statement's own expressions, not nested blocks
+	var visit func(n ast.Node) bool
+	visit = func(n ast.Node) bool {
+		if found != nil {
+			return false
+		}
+		switch t := n.(type) {
+		case *ast.BlockStmt, *ast.FuncLit:
+			return false
+		case *ast.CallExpr:
+			// arguments first (evaluation order)
+			for _, a := range t.Args {
+				ast.Inspect(a, visit)
+			}
+			if found != nil {
+				return false
+			}
+			if _, done := st.inlined[t]; done {
+				return false
+			}
+			if fn := x.staticCallee(t); fn != nil && fn.Pkg() != nil && fn.Pkg().Path() == x.fn.pkgPath() {
+				key := funcKeyOf(fn)
+				if x.sp.Funcs[key] == nil {
+					if fi := x.prog.funcs[key]; fi != nil && fi.decl.Body != nil {
+						found, ffi = t, fi
+					}
+				}
+			}
+			return false
+		}
+		return true
+	}
+	switch t := s.(type) {
+	case *ast.ExprStmt:
+		ast.Inspect(t.X, visit)
+	case *ast.AssignStmt:
+		for _, r := range t.Rhs {
+			ast.Inspect(r, visit)
+		}
+	case *ast.ReturnStmt:
+		for _, r := range t.Results {
+			ast.Inspect(r, visit)
+		}
+	case *ast.IfStmt:
+		if t.Init == nil {
+			ast.Inspect(t.Cond, visit)
+		}
+	case *ast.IncDecStmt:
+		ast.Inspect(t.X, visit)
+	case *ast.SendStmt:
+		ast.Inspect(t.Value, visit)
+	case *ast.DeclStmt:
+		ast.Inspect(t, visit)
+	}
+	return found, ffi
+}
+
+func (x *Exec) inline(call *ast.CallExpr, fi *FuncInfo, st *State, k func(*State, []Val)) {
+	if x.inlineDepth >= 4 {
+		x.unsupported(call, "inlining too deep (recursion?) at "+fi.name())
+		return
+	}
+	// ordinals of the callee's nodes
+	if _, ok := x.ords[fi.decl]; !ok {
+		cnt := map[string]int{}
+		ast.Inspect(fi.decl, func(n ast.Node) bool {
+			if n == nil {
+				return true
+			}
+			kk := fmt.Sprintf("%T", n)
+			x.ords[n] = 1000*(len(x.inlinedFuncs)+1) + cnt[kk]
+			cnt[kk]++
+			return true
+		})
+		x.inlinedFuncs = append(x.inlinedFuncs, fi.name())
+	}
+	sig := fi.obj.Type().(*types.Signature)
+	var args []Val
+	if sig.Recv() != nil {
+		if sel, ok := ast.Unparen(call.Fun).(*ast.SelectorExpr); ok {
+			args = append(args, x.eval(st, sel.X))
+		}
+	}
+	for _, a := range call.Args {
+		args = append(args, x.eval(st, a))
+	}
+	// bind parameters (objects of the callee's declaration)
+	i := 0
+	bind := func(fl *ast.FieldList) {
+		if fl == nil {
+			return
+		}
+		for _, f := range fl.List {
+			if len(f.Names) == 0 {
+				i++
+			}
+			for _, n := range f.Names {
+				if o, ok := x.info().Defs[n].(*types.Var); ok && i < len(args) {
+					v := args[i]
+					v.G = o.Type()
+					st.vars[o] = v
+				}
+				i++
+			}
+		}
+	}
+	bind(fi.decl.Recv)
+	bind(fi.decl.Type.Params)
+	if sig.Variadic() {
+		x.unsupported(call, "inlining a variadic function")
+		return
+	}
+	savedSpec, savedDefers := x.spec, st.defers
+	empty := &FuncSpec{Loops: map[int]*LoopSpec{}, Wraps: map[string]bool{}, Assumed: map[string]bool{}}
+	x.spec = empty
+	x.inlineDepth++
+	st.defers = nil
+	st.note("inline " + fi.name())
+	ret := func(st *State, res []Val) {
+		x.runDefers(st, len(st.defers)-1, func(st *State) {
+			st.defers = savedDefers
+			x.spec = savedSpec
+			x.inlineDepth--
+			st.note("end-inline")
+			k(st, res)
+			x.inlineDepth++
+			x.spec = empty
+		})
+	}
+	cx := &Ctx{onReturn: ret}
+	x.stmts(fi.decl.Body.List, st, cx, func(st *State) { ret(st, nil) })
+	x.inlineDepth--
+	x.spec = savedSpec
 }
 
 // ------------------------------------------------------------------ loops
@@ -364,7 +534,7 @@ func (x *Exec) loop(s ast.Stmt, st *State, cx *Ctx, k func(*State)) {
 			env := envAt(st, hid)
 			for i, c := range invs {
 				for _, p := range env.evalClause(c) {
-					x.oblige(st, "invariant", fmt.Sprintf("loop[%d]:%s:%s", ord, when, p.label(i+1)), c.Tags, p.term)
+					x.oblige(st, "invariant", fmt.Sprintf("loop[%d]:%s:%s", ord, when, p.label(i+1)), p.tagsFor(c.Tags), p.term)
 				}
 			}
 		}
@@ -1033,7 +1203,7 @@ func (x *Exec) atExit(st *State, res []Val) {
 		}
 		n++
 		for _, p := range env.evalClause(c) {
-			x.oblige(st, "ensures", "ensures:"+p.label(n), c.Tags, p.term)
+			x.oblige(st, "ensures", "ensures:"+p.label(n), p.tagsFor(c.Tags), p.term)
 		}
 	}
 	x.checkFrame(st)
